@@ -326,6 +326,71 @@ def exact_text(t: T) -> T:
     return t
 
 
+def index_form(t: T) -> T:
+    """loop elements of a leading slice written as subscripts: the k-th
+    element of X[:m] (m a bound, no start / step) is X[k], so
+    `for i, x in enumerate(X[:-1])` and `for i in range(n - 1): x = X[i]`
+    give one term"""
+    def rw(z: T):
+        if z.op == "elem" and z.args[0].op == "sub":
+            sl = z.args[0].args[1]
+            if sl.op == "slice" and sl.args[0] is tm.NONE and \
+                    sl.args[2] is tm.NONE:
+                return tm.sub(z.args[0].args[0], T("index", z.args[1]))
+        if z.op == "elem" and is_call_to(z.args[0], "builtins.range") and \
+                len(z.args[0].args[1]) == 1:
+            return T("index", z.args[1])
+        return None
+    return t.map(rw)
+
+
+def _arrayish(t: T) -> bool:
+    if t.op == "sub":
+        return t.args[1].op == "slice" and _arrayish_base(t.args[0])
+    if t.op == "binop":
+        return _arrayish(t.args[1]) or _arrayish(t.args[2])
+    if is_call_to(t, *_UFUNCS) and len(t.args[1]) == 1:
+        return _arrayish(t.args[1][0])
+    return _arrayish_base(t)
+
+
+def _arrayish_base(t: T) -> bool:
+    return t.op == "call" and not is_call_to(
+        t, "builtins.int", "builtins.float", "builtins.len",
+        "numpy.argmin", "numpy.argmax", "numpy.linalg.norm", "numpy.sum") \
+        or t.op in ("comp", "list", "attr")
+
+
+def push_index(t: T) -> T:
+    """E[c] for an element-wise array expression E: the subscript is moved
+    to the array operands — abs(A)[c] = abs(A[c]), (A - s)[c] = A[c] - s"""
+    def rw(z: T):
+        if z.op != "sub" or z.args[1].op in ("slice", "tuple"):
+            return None
+        e, c = z.args
+        if is_call_to(e, *_UFUNCS) and len(e.args[1]) == 1 and \
+                not e.args[2] and _arrayish(e.args[1][0]):
+            return tm.call(e.args[0], (rw_full(tm.sub(e.args[1][0], c)),),
+                           ())
+        if e.op == "binop" and _arrayish(e):
+            a, b = e.args[1], e.args[2]
+            return T("binop", e.args[0],
+                     rw_full(tm.sub(a, c)) if _arrayish(a) else a,
+                     rw_full(tm.sub(b, c)) if _arrayish(b) else b)
+        return None
+
+    def rw_full(z: T) -> T:
+        r = rw(z)
+        return z if r is None else r
+    prev = None
+    for _ in range(6):
+        if t is prev:
+            break
+        prev = t
+        t = t.map(rw)
+    return t
+
+
 def strip_copies(t: T) -> T:
     """value-preserving wrappers removed: float(x), np.array(x) / np.asarray
     / np.copy(x) / x.copy() without further arguments"""
